@@ -1,21 +1,36 @@
 #!/venv/bin/python
-"""MANIFEST.setup_cmd: build the whole Coq development from clean (full .vo build), offline."""
-import sys, os, subprocess
+"""MANIFEST.setup_cmd: build the Coq development from clean (full .vo build), offline.
+Fatal: a translator or a build failure affecting a CLAIMED property (tools/claims.json ready=true).
+Files of properties still under construction are built too but only reported."""
+import sys, os, json, importlib
 from pathlib import Path
 V = Path(__file__).resolve().parent.parent
 sys.path.insert(0, str(V)); sys.path.insert(0, "/repo")
 os.environ.setdefault("PYTHONHASHSEED", "0")
 from vlib import core
-import importlib
-# regenerate every translated source first (they are not committed)
+claims = json.loads((V / "tools" / "claims.json").read_text())
+ready = [k for k, v in claims.items() if isinstance(v, dict) and v.get("ready")]
 fail = 0
+targets = []
+for pid in ready:
+    plug = importlib.import_module("props." + pid)
+    for t in getattr(plug, "TRANSLATORS", []):
+        try:
+            importlib.import_module("translate." + t).emit()
+        except Exception as ex:
+            print("translator", t, "failed:", ex); fail = 1
+    pf = getattr(plug, "PROPS", f"Props/{pid}.v")
+    targets += [f + "o" for f in ([pf] if isinstance(pf, str) else pf)]
+# translators of unclaimed properties: best effort
 for f in sorted((V / "translate").glob("*.py")):
-    if f.stem.startswith("_"):
-        continue
-    try:
-        importlib.import_module("translate." + f.stem).emit()
-    except Exception as ex:
-        print("translator", f.stem, "failed:", ex); fail = 1
-ok, log = core.coq_make(None, timeout=3000)
-print(log[-3000:])
+    if not f.stem.startswith("_"):
+        try:
+            importlib.import_module("translate." + f.stem).emit()
+        except Exception as ex:
+            print("(unclaimed) translator", f.stem, "failed:", ex)
+ok, log = core.coq_make(sorted(set(targets)), timeout=3000)
+print(log[-2500:])
+ok2, log2 = core.coq_make(None, timeout=3000)
+if not ok2:
+    print("NOTE: full build has failures outside the claimed properties:\n" + log2[-1500:])
 sys.exit(0 if ok and not fail else 1)
